@@ -695,6 +695,10 @@ def generate_lossy_and_partially_distinguishable_samples(
         connector=connector,
     )
 
+    # NOTE: Rounding errors may yield tiny negative probabilities for outcomes of
+    # probability 0, which would be refused by the random number generator.
+    probabilities = connector.np.clip(probabilities, 0.0, None)
+
     probabilities /= connector.np.sum(probabilities)
 
     sample_indices = config.rng.choice(
